@@ -97,7 +97,7 @@ def fork_task(task):
             stats['skip-unmodelled/fuel'] += 1
         elif a == ma:
             stats['agree'] += 1
-        elif cfg.max_item_size < 256 and (tsh._exn_text_moved(ma) or tsh._exn_text_moved(a)):
+        elif tsh.exntext_excuse(cfg, scripts if auth else [prog], a, ma):
             stats['skip-exntext'] += 1
         else:
             stats['differ'] += 1
